@@ -84,6 +84,17 @@ pub fn check_layout(module: &Module) -> Result<(), LayoutError> {
                 layout_metal,
             ));
         }
+
+        // The total size may match while padding sits in different places
+        // Every field must also start at the same offset on both platforms
+        let mismatched_offset = layout_hlsl
+            .field_offsets
+            .iter()
+            .zip(&layout_metal.field_offsets)
+            .find(|(lhs, rhs)| lhs != rhs);
+        if let Some((lhs, rhs)) = mismatched_offset {
+            return Err(LayoutError::MismatchedFieldOffset(loc, *lhs, *rhs));
+        }
     }
 
     Ok(())
@@ -92,6 +103,7 @@ pub fn check_layout(module: &Module) -> Result<(), LayoutError> {
 pub enum LayoutError {
     UnknownLayout(SourceLocation),
     MismatchedLayout(SourceLocation, Layout, Layout),
+    MismatchedFieldOffset(SourceLocation, u32, u32),
 }
 
 impl CompileError for LayoutError {
@@ -113,6 +125,17 @@ impl CompileError for LayoutError {
                 *loc,
                 Severity::Error,
             ),
+            LayoutError::MismatchedFieldOffset(loc, lhs, rhs) => w.write_message(
+                &|f| {
+                    write!(
+                        f,
+                        "struct has a field at offset={} on HLSL but offset={} on Metal",
+                        lhs, rhs,
+                    )
+                },
+                *loc,
+                Severity::Error,
+            ),
         }
     }
 }
@@ -127,6 +150,9 @@ enum PackingMode {
 pub struct Layout {
     size: u32,
     align: u32,
+
+    /// Byte offset of every scalar or vector field reachable from the type - in declaration order
+    field_offsets: Vec<u32>,
 }
 
 fn get_type_layout(module: &Module, ty: TypeId, mode: PackingMode) -> Option<Layout> {
@@ -139,6 +165,7 @@ fn get_type_layout(module: &Module, ty: TypeId, mode: PackingMode) -> Option<Lay
                 size,
                 // Assume all scalars have the same size and alignment
                 align: size,
+                field_offsets: Vec::from([0]),
             }),
             None => panic!("unexpected unsized scalar"),
         },
@@ -158,13 +185,22 @@ fn get_type_layout(module: &Module, ty: TypeId, mode: PackingMode) -> Option<Lay
         TypeLayer::Matrix(_, _, _) => None,
         TypeLayer::Struct(sid) => {
             let def = &module.struct_registry[sid.0 as usize];
-            let mut layout = Layout { size: 0, align: 1 };
+            let mut layout = Layout {
+                size: 0,
+                align: 1,
+                field_offsets: Vec::new(),
+            };
             for member in &def.members {
                 let member_layout = get_type_layout(module, member.type_id, mode)?;
                 layout.size = layout.size.next_multiple_of(member_layout.align);
+                for offset in &member_layout.field_offsets {
+                    layout.field_offsets.push(layout.size + offset);
+                }
                 layout.size += member_layout.size;
                 layout.align = layout.align.max(member_layout.align);
             }
+            // A struct used as a member or array element occupies a multiple of its alignment
+            layout.size = layout.size.next_multiple_of(layout.align);
             Some(layout)
         }
         TypeLayer::StructTemplate(_) => panic!("unexpected struct template"),
@@ -174,9 +210,20 @@ fn get_type_layout(module: &Module, ty: TypeId, mode: PackingMode) -> Option<Lay
         }
         TypeLayer::Object(_) => None,
         TypeLayer::Array(ty, Some(count)) => {
-            let mut layout = get_type_layout(module, ty, mode)?;
-            layout.size *= u32::try_from(count).unwrap();
-            Some(layout)
+            let element = get_type_layout(module, ty, mode)?;
+            let count = u32::try_from(count).unwrap();
+            // The first two elements are enough to capture the element layout and the stride
+            let mut field_offsets = Vec::new();
+            for i in 0..count.min(2) {
+                for offset in &element.field_offsets {
+                    field_offsets.push(i * element.size + offset);
+                }
+            }
+            Some(Layout {
+                size: element.size * count,
+                align: element.align,
+                field_offsets,
+            })
         }
         TypeLayer::Array(_, None) => None,
         TypeLayer::TemplateParam(_) => panic!("unexpected template param"),
